@@ -138,16 +138,16 @@ def pCompat (e : Err) (refs : List (Option Err)) : String :=
 /-- the formatting streams: Error(), plain %v / %+v through Formattable, redactable %v / %+v
     and their redacted forms -/
 def pFmt (e : Err) : String :=
-  let rv := assemble [.pre (render true false e)]
-  let rpv := assemble [.pre (render true true e)]
+  let rv := assembleT [.preT (renderT true false e)]
+  let rpv := assembleT [.preT (renderT true true e)]
   pList ["fmt",
     pList ["error", pStr (errText e)],
     pList ["v", pStr (render false false e)],
     pList ["pv", pStr (render false true e)],
-    pList ["rv", pStr rv],
-    pList ["rpv", pStr rpv],
-    pList ["rvred", pStr (redactS rv)],
-    pList ["rpvred", pStr (redactS rpv)]]
+    pList ["rv", pStr (unlex rv)],
+    pList ["rpv", pStr (unlex rpv)],
+    pList ["rvred", pStr (unlex (redactT rv))],
+    pList ["rpvred", pStr (unlex (redactT rpv))]]
 
 /-- parse a printf directive "%[flags][width][.prec]verb" -/
 def parseSpec (s : Str) : Option Spec :=
